@@ -422,6 +422,24 @@ def finish(ctx, stats):
                        'lookup structures and every virtual_ptr construction route; the model is tied to /repo by generated programs (finite '
                        'sample) whose traces are compared with the extracted model and judged by an oracle that does not use the model.',
     }
+    # registry-level part (harness H1): in load / unload histories under vector, hashed, map and INDIRECT policies, after every
+    # update a virtual_ptr<Obj> is made from a base reference for every live id and compared with the class's static v-table
+    # pointer; under the indirect policy the pointers made before the update are checked again after it
+    import coresuite
+    hres = coresuite.history_suite(ctx.tier, ctx.seed)
+    if not hres['build']['h1']:
+        ctx.broken.append('harness H1 does not build against /repo: ' + hres['build']['h1_log'][-300:])
+    h1_fail = 0; h1_hist = 0
+    for e in hres['cases']:
+        h1_hist += 1
+        msgs = e.get('fails_c09') or ([m for m in e['fails'] if 'crashed' in m] if e['fails'] else [])
+        if msgs:
+            h1_fail += 1
+            if h1_fail <= 2:
+                ctx.violation('%s (history %s, policy %s)' % (msgs[0], e['name'], e.get('policy')),
+                              {'case': e['name'], 'policy': e.get('policy'), 'failures': msgs, 'history': e.get('history'),
+                               'replay_case': ('case %s\nids small\n%s\nend\n' % (e['name'], '\n'.join(e['history']))) if e.get('history') else None})
+    cov['h1_histories'] = h1_hist; cov['h1_histories_failing'] = h1_fail; cov['h1_updates_observed'] = hres.get('n', 0)
     vlib.finish(ctx, cov, assumptions=[
         'which constructor / conversion a C++ expression selects is decided by g++/clang++; the model is told the route',
         'a v-table is abstracted to (class, update number); that dispatch_data really moves is forced in the programs by resizing it before update',
